@@ -116,6 +116,12 @@ Proof.
   destruct (pol_delete fis _ s1) as [[s2 remain] ok]. cbn [fst] in *. eapply env_trans; eauto.
 Qed.
 
+Lemma run_writebacks_env : forall n wb s, env_eq s (fst (run_writebacks n wb s)).
+Proof.
+  intros n wb. induction wb as [|b t IH]; intros s; cbn; [apply env_refl|].
+  destruct b; cbn; [|apply env_refl]. eapply env_trans; [apply with_file_env | apply IH].
+Qed.
+
 Lemma force_delete_env : forall n ttl owns wb s, env_eq s (fst (force_delete n ttl owns wb s)).
 Proof.
   intros. unfold force_delete.
@@ -127,10 +133,12 @@ Proof.
             (fst (let '(s4, r) := delete_file n s0 in
                   (s4, match r with ROk => ODel true false | _ => ODel false true end)))).
   { intros s0. pose proof (delete_file_env n s0) as H. destruct (delete_file n s0). exact H. }
-  destruct (is_persisted f); [destruct wb|]; cbn [fst].
-  - eapply env_trans; [exact H1|]. eapply env_trans; [exact H2|].
+  destruct (is_persisted f).
+  - pose proof (run_writebacks_env n wb s2) as H3.
+    destruct (run_writebacks n wb s2) as [s3 allok]. cbn [fst] in H3.
+    eapply env_trans; [exact H1|]. eapply env_trans; [exact H2|]. eapply env_trans; [exact H3|].
+    destruct allok; cbn [fst]; [|apply env_refl].
     eapply env_trans; [apply with_file_env | apply D].
-  - eapply env_trans; eauto.
   - eapply env_trans; [exact H1|]. eapply env_trans; [exact H2|]. apply D.
 Qed.
 
@@ -447,9 +455,9 @@ Theorem cleanup_keeps_protected : forall s n x c pol u scan order,
 Proof. intros. apply cleanup_keeps. auto. Qed.
 
 (* forced cleanup: deletes a protected file only after the write-back ran *)
-Theorem force_delete_needs_writeback : forall s n x ttl owns,
-  prot n (dk s) = Some x -> prot n (dk (fst (force_delete n ttl owns false s))) = Some x.
-Proof. intros. apply force_delete_keeps; auto. Qed.
+Theorem force_delete_needs_writeback : forall s n x ttl owns t,
+  prot n (dk s) = Some x -> prot n (dk (fst (force_delete n ttl owns (false :: t) s))) = Some x.
+Proof. intros. apply force_delete_keeps; eauto. Qed.
 
 (* normal pass, pointwise: exactly the listed, unprotected, idle-or-expired files go *)
 Theorem cleanup_exact : forall s c pol u scan order m,
@@ -565,20 +573,20 @@ Theorem policy_pass_stmt : forall s n f thr total scan order,
   stays n f (fst (policy_pass thr total scan order s)).
 Proof. intros. eapply keeps_stays; eauto. apply policy_pass_keeps. Qed.
 
-Theorem force_delete_stmt : forall s n f ttl owns,
+Theorem force_delete_stmt : forall s n f ttl owns t,
   aget n (dk s) = Some f -> is_persisted f = true ->
-  stays n f (fst (force_delete n ttl owns false s))
-  /\ snd (force_delete n ttl owns false s) <> ODel true false.
+  stays n f (fst (force_delete n ttl owns (false :: t) s))
+  /\ snd (force_delete n ttl owns (false :: t) s) <> ODel true false.
 Proof.
-  intros s n f ttl owns H1 H2. split.
-  - eapply keeps_stays; eauto. apply force_delete_keeps. auto.
+  intros s n f ttl owns t H1 H2. split.
+  - eapply keeps_stays; eauto. apply force_delete_keeps. eauto.
   - unfold force_delete.
     pose proof (peek_keeps n n s _ (prot_intro _ _ _ H1 H2)) as Hp.
     destruct (peek n s) as [s1 ok]. cbn [fst] in Hp. apply prot_elim in Hp.
     destruct Hp as (f1 & A & B & _).
     destruct ok; cbn [snd]; [rewrite A | discriminate].
     destruct ((ttl <? now s1 - f_mtime f1) || negb owns); [|discriminate].
-    destruct (peek n s1) as [s2 ok2]. rewrite B. discriminate.
+    destruct (peek n s1) as [s2 ok2]. rewrite B. cbn. discriminate.
 Qed.
 
 (* exactness for the states of histories *)
